@@ -850,6 +850,7 @@ func runPairs(c *engine.Ctx) {
 }
 
 func run(c *engine.Ctx) {
+	runClashes(c)
 	runPairs(c)
 	sibLen := 3
 	if !c.Quick() {
@@ -959,6 +960,9 @@ func run(c *engine.Ctx) {
 }
 
 func replay(c *engine.Ctx, sub string, raw json.RawMessage) []engine.Violation {
+	if sub == "clash" {
+		return replayClash(raw)
+	}
 	if sub == "pair" {
 		var p pairRec
 		if json.Unmarshal(raw, &p) != nil {
